@@ -1,5 +1,6 @@
 import GeffModel.WRJson
 import GeffModel.GraphOf
+import GeffModel.StoreTree
 open Lean Geff Geff.Proto Geff.Store Geff.WR Geff.WRJson Geff.Spec
 
 /-- requests:
@@ -22,6 +23,12 @@ def graphJson (g : Graph) : Json :=
 
 def noValidate : St → Outcome Unit := fun _ => pure ()
 
+/-- `"validate": true` = `read_to_memory`'s default `structure_validation=True` (C04's model via the bridge) -/
+def validatorOf (j : Json) : St → Outcome Unit :=
+  match j.getObjVal? "validate" with
+  | .ok (.bool true) => Geff.Bridge.validate
+  | _ => noValidate
+
 def handle (j : Json) : Except String Json := do
   let op ← (← j.getObjVal? "op").getStr?
   match op with
@@ -30,7 +37,7 @@ def handle (j : Json) : Except String Json := do
     pure (Json.mkObj [("graph", match denote s with | some g => graphJson g | none => Json.null)])
   | "read" =>
     let s ← storeOfJson (← j.getObjVal? "store")
-    pure (outcomeJson (readToMemory vlenCodec noValidate s)
+    pure (outcomeJson (readToMemory vlenCodec (validatorOf j) s)
       (fun r => [("geff", readResultToJson r), ("graph", graphJson (graphOf r))]))
   | "write" =>
     let g ← inMemOfJson (← j.getObjVal? "g")
